@@ -14,7 +14,7 @@ RULE = (
 BOUNDS = {
     "quick": "63 policies x 11 overrides x 6 error kinds x (no fault, 4 single positions, 6 pairs) via Config object; all 40 pairs of override tokens x 7 policies over {collect,fail,stop} x 6 kinds x 4 positions; the 63 policies x "
     "5 kinds x 4 single positions again via config.ini",
-    "thorough": "as quick plus all 2-flag override combinations over different flags, 5-record files (1,2 faults), config.ini injection for everything",
+    "thorough": "as quick plus all 2-flag override combinations over different flags x 63 policies, all 3-flag combinations x 7 policies, 5-record files via config.ini and 7-record files (1,2 faults) for every policy",
 }
 ASSUMPTIONS = [
     "error kinds: argument-type mismatch add(#2,1) on 'x'; function rule substring(#0,int(#1)) with -1; Python exception mod(#2,#1) "
@@ -90,6 +90,22 @@ def cases(tier, seed):
                 for bad in _positions(5, 2):
                     if bad:
                         yield {"policy": pol, "override": [], "kind": kind, "bad": bad, "n": 5, "via": "ini"}
+        # every triple of override tokens over three different flags, under the 7 policies over {collect, fail, stop}
+        for t in itertools.combinations(singles, 3):
+            if len({x.replace("no-", "") for x in t}) < 3:
+                continue
+            for m in range(1, 8):
+                pol = [f for i, f in enumerate(("collect", "fail", "stop")) if m >> i & 1]
+                for kind in KINDS:
+                    for bad in _positions(4, 2):
+                        if bad:
+                            yield {"policy": pol, "override": list(t), "kind": kind, "bad": bad, "n": 4, "via": "obj"}
+        # longer files: 7 records, one or two faults, every policy
+        for pol in _policies():
+            for kind in KINDS:
+                for bad in _positions(7, 2):
+                    if bad:
+                        yield {"policy": pol, "override": [], "kind": kind, "bad": bad, "n": 7, "via": "obj"}
 
 
 def sample(case):
